@@ -7,7 +7,8 @@ Every case is a *query* (one text line).  For each query three things are comput
   oracle   an independent textbook computation in this file - the property itself.
 impl != oracle  -> VIOLATION (concrete failing input, replayable from the query alone);
 impl != model   -> correspondence VIOLATION (the theorems no longer talk about the code).
-Queries starting with `py:` have no model part (oracle only).
+Queries starting with `py:` have no model part (oracle only).  `mmloc` (MachineModel.get_locations) and `qpu`
+(get_qpu_to_qudit_map / get_qudit_to_qpu_map / get_qpu_connectivity) are model-backed (coq/map/GraphQpu.v).
 """
 from __future__ import annotations
 
@@ -683,6 +684,99 @@ def h_qpu(a):
     return dict(model=None, impl=safe(f), oracle=exp, what='get_qpu_to_qudit_map & co.: components after deleting remote edges')
 
 
+# ---- MachineModel.get_locations and the QPU maps: model-backed (coq/map/GraphQpu.v) -----------
+def h_mmloc(a):
+    n, es, k = a
+    es = [tuple(e) for e in es]
+
+    def f():
+        m = Impl.MM(n, es)
+        return fmt([m.coupling_graph.num_qudits, sorted({tuple(sorted(l)) for l in m.get_locations(k)})])
+    if n <= 0:
+        orc = 'ValueError'
+    elif any(x >= n or y >= n or x == y for x, y in es):
+        orc = 'TypeError'
+    elif k <= 0 or k > n:
+        orc = 'ValueError'
+    else:
+        orc = fmt([n, sorted(connected_subsets(adj_of(n, es), k))])
+    sig = dict(call='MachineModel.get_locations')
+
+    def canon(m):
+        v = parse(m)[0]
+        return fmt([v[0], sorted(tuple(l) for l in v[1])]) if isinstance(v, list) else m
+    return dict(model=f'mmloc {n} {fmt(es)} {k}', canon=canon, impl=safe(f), oracle=orc, sig=sig,
+                what='MachineModel(num_qudits, edges).get_locations: all connected blocks of the num_qudits-qudit machine')
+
+
+def f8_fixed() -> bool:
+    """the model of get_qudit_to_qpu_map follows the CURRENT code: the insertion-order version while finding C20-F8 is
+    open, the repaired one (fixes/C20-F8.patch) once known_findings.d/C20.json marks it fixed"""
+    import json
+    try:
+        ents = json.loads((vf.ROOT / 'known_findings.d' / 'C20.json').read_text())
+    except Exception:  # noqa
+        return False
+    return any(e.get('id') == 'C20-F8' and e.get('status') == 'fixed' for e in ents)
+
+
+def qpu_oracle(n, es, remote):
+    """textbook: components of the graph without its remote edges, in order of their least qudit; qudit -> component
+    index; QPU adjacency induced by the remote edges"""
+    rset = {tuple(sorted(e)) for e in remote}
+    local = [e for e in es if tuple(sorted(e)) not in rset]
+    adj = adj_of(n, local)
+    comps, seen = [], set()
+    for v in range(n):
+        if v not in seen:
+            c = sorted(bfs_dist(adj, v))
+            seen.update(c)
+            comps.append(c)
+    q2q = [next(i for i, c in enumerate(comps) if v in c) for v in range(n)]
+    conn = [set() for _ in comps]
+    for x, y in rset:
+        conn[q2q[x]].add(q2q[y])
+        conn[q2q[y]].add(q2q[x])
+    return comps, q2q, [sorted(s) for s in conn]
+
+
+def h_qpumap(a):
+    n, es, remote = a
+    es, remote = [tuple(e) for e in es], [tuple(e) for e in remote]
+    comps, q2q, conn = qpu_oracle(n, es, remote)
+    extra = []
+    try:
+        g = Impl.G(es, n, remote_edges=remote)
+        got_c = [sorted(c) for c in g.get_qpu_to_qudit_map()]
+        got_q = list(g.get_qudit_to_qpu_map())
+        got_a = [sorted(s) for s in g.get_qpu_connectivity()]
+        impl = fmt([got_c, got_q, got_a])
+        if got_c != comps:
+            extra.append((dict(call='get_qpu_to_qudit_map'), fmt(comps), fmt(got_c),
+                          'get_qpu_to_qudit_map: QPUs are not the connected components of the graph without its remote edges'))
+        else:
+            if got_q != q2q:
+                extra.append((dict(call='get_qudit_to_qpu_map', symptom='insertion_order'), fmt(q2q), fmt(got_q),
+                              'get_qudit_to_qpu_map: entry q is not the index of the QPU that contains qudit q'))
+            if got_a != conn:
+                s2 = dict(call='get_qpu_connectivity')
+                if got_q != q2q:
+                    s2 = dict(call='get_qudit_to_qpu_map', symptom='insertion_order')     # same root cause
+                extra.append((s2, fmt(conn), fmt(got_a), 'get_qpu_connectivity: not the QPU adjacency induced by the remote edges'))
+    except Exception as e:  # noqa
+        impl = err(e)
+        extra.append((dict(call='get_qpu_to_qudit_map'), fmt([comps, q2q, conn]), impl, 'QPU maps raise on a valid graph'))
+    fixed = f8_fixed()
+
+    def canon(m):
+        v = parse(m)[0]
+        if not isinstance(v, list) or len(v) != 5:
+            return m
+        return fmt([v[0], v[3], v[4]] if fixed else [v[0], v[1], v[2]])
+    return dict(model=f'qpu {n} {fmt(es)} {fmt(remote)}', canon=canon, impl=impl, oracle=None, extra=extra,
+                sig=dict(call='get_qpu_to_qudit_map'), what='get_qpu_to_qudit_map / get_qudit_to_qpu_map / get_qpu_connectivity')
+
+
 def h_hasheq(a):
     """equal graphs (same size, same edge set, any edge order / orientation, pickled copy) are == and hash equally;
     graphs differing in an edge or in size are != """
@@ -710,14 +804,14 @@ HANDLERS = {
     'fc': h_fc, 'fcw': h_fcw, 'deg': h_deg, 'lin': h_lin, 'fw': h_fw, 'fww': h_fww, 'spt': h_spt, 'sub': h_sub,
     'gsub': h_gsub, 'fql': h_fql, 'perm': h_perm, 'emb': h_emb, 'topo': h_topo, 'mkg': h_mkg, 'ind': h_ind,
     'relab': h_relab, 'match': h_match, 'kron': h_kron, 'otimes': h_otimes, 'ipow': h_ipow,
-    'applyr': h_apply('r'), 'applyl': h_apply('l'),
+    'applyr': h_apply('r'), 'applyl': h_apply('l'), 'mmloc': h_mmloc, 'qpu': h_qpumap,
     'py:mm_locations': h_mm_locations, 'py:mm_compat': h_mm_compat, 'py:span': h_span, 'py:qpu': h_qpu, 'py:hasheq': h_hasheq,
 }
 # functions whose model has a Coq theorem (props/C20.v) vs correspondence/oracle only
 THEOREM_BACKED = ['fc', 'fcw', 'deg', 'lin', 'fw', 'fww', 'spt', 'sub', 'gsub', 'perm', 'fql', 'emb', 'topo', 'mkg',
-                  'ind', 'match', 'kron', 'otimes', 'ipow', 'applyr', 'applyl']
+                  'ind', 'match', 'kron', 'otimes', 'ipow', 'applyr', 'applyl', 'mmloc', 'qpu']
 CORRESPONDENCE_ONLY = ['relab']
-ORACLE_ONLY = ['py:mm_locations', 'py:mm_compat', 'py:span', 'py:qpu', 'py:hasheq', 'get_neighbors_of']
+ORACLE_ONLY = ['py:mm_compat', 'py:span', 'py:qpu (individual QPU graphs, qpu_count, is_distributed)', 'py:hasheq', 'get_neighbors_of']
 
 
 def evaluate(ctx: vf.Ctx, queries: list[str]) -> int:
@@ -849,9 +943,12 @@ def generate(ctx: vf.Ctx) -> list[str]:
         if es and (n <= 4 or rng.random() < 0.2):
             remote = [e for e in es if rng.random() < 0.3]
             Q.append(f'py:qpu {n} {fmt(es)} {fmt(remote)}')
+            Q.append(f'qpu {n} {fmt(es)} {fmt(remote)}')     # remote edges exactly as in the edge list (a reversed pair is rejected: contract)
+            ctx.count('qpu_maps')
         if n <= 4 or rng.random() < 0.1:
-            for k in range(1, min(n, 3) + 1):
-                Q.append(f'py:mm_locations {n} {fmt(es)} {k}')
+            for k in range(0 if n <= 3 else 1, min(n, 3) + (2 if n <= 3 else 1)):     # k = 0 and k = n + 1: ValueError
+                Q.append(f'mmloc {n} {fmt(es)} {k}')
+            ctx.count('machine_locations')
         if es and (n <= 4 or rng.random() < 0.1):
             cn = rng.randint(2, n)
             ces = [[x, y] for x, y in itertools.combinations(range(cn), 2) if rng.random() < 0.4]
@@ -859,6 +956,39 @@ def generate(ctx: vf.Ctx) -> list[str]:
             Q.append(f'py:mm_compat {n} {fmt(es)} {cn} {fmt(ces)} {fmt(pl) if rng.random() < 0.8 else "NONE"}')
         if len(ctx.samples) < 3 and n >= 4 and nt:
             ctx.sample(dict(n=n, edges=es, queries=Q[-6:]))
+
+    # ---- MachineModel: trailing isolated qudits, malformed (num_qudits 0, label out of range, self-loop) --------
+    for _ in range(ctx.n(60, 600)):
+        n = rng.randint(1, 6)
+        es = [tuple(sorted(rng.sample(range(n), 2))) for _ in range(rng.randint(0, 5))] if n >= 2 else []
+        m = n + rng.randint(0, 3)            # more qudits than the edges mention
+        r = rng.random()
+        if r < 0.08:
+            m = 0
+        elif r < 0.16:
+            es = es + [(rng.randrange(m), m + rng.randint(0, 1))]
+        elif r < 0.22:
+            x = rng.randrange(m)
+            es = es + [(x, x)]
+        if r < 0.22:
+            ctx.count('machine_malformed')
+        add(f'mmloc {m} {fmt(es)} {rng.randint(1, 3)}', ('mmloc', m, tuple(es)), bool(es), 'machine_locations')
+    # ---- QPU maps: QPUs whose labels interleave (the order of discovery is not the label order) -----------------
+    for _ in range(ctx.n(80, 800)):
+        nq = rng.randint(2, 3)
+        n = rng.randint(nq, 7)
+        owner = [rng.randrange(nq) for _ in range(n)]
+        es, remote = [], []
+        for x in range(n):
+            for y in range(x + 1, n):
+                if owner[x] == owner[y] and rng.random() < 0.6:
+                    es.append((x, y))
+                elif owner[x] != owner[y] and rng.random() < 0.25:
+                    es.append((x, y))
+                    if rng.random() < 0.85:          # a few inter-block edges stay local: blocks merge
+                        remote.append((x, y))
+        if es:
+            add(f'qpu {n} {fmt(es)} {fmt(remote)}', ('qpu', n, tuple(es), tuple(remote)), bool(remote), 'qpu_maps')
 
     # ---- labels that collide in CPython's set hashing (0 and 8, 1 and 9 ...) ------------
     for es in ([(0, 8)], [(0, 8), (8, 16), (0, 16)], [(1, 8), (8, 3)]):
@@ -994,6 +1124,8 @@ def run(ctx: vf.Ctx):
     ctx.cov['functions_with_theorems'] = THEOREM_BACKED
     ctx.cov['functions_correspondence_only'] = CORRESPONDENCE_ONLY
     ctx.cov['functions_oracle_only'] = ORACLE_ONLY
+    ctx.cov['refuted_as_written'] = ['get_qudit_to_qpu_map (C20_qudit_to_qpu_refuted, finding C20-F8; model follows the %s code)'
+                                     % ('repaired' if f8_fixed() else 'current')]
     ctx.cov['uncovered'] = ['maximal_matching(randomize=True) (theorem covers every order; not run)',
                             'UnitaryBuilder.calc_env_matrix', 'complex-valued unitaries in otimes/ipower']
     if not ctx.quick():
